@@ -13,6 +13,8 @@ def showErr : Err → String
   | .badOption => "badoption"
   | .keyFile => "keyfile"
   | .knownHostsFile => "khfile"
+  | .fileNotFound => "filenotfound"
+  | .spawn => "spawn"
 
 def showMethod : AuthMethod → String
   | .publicKey p => "pk:" ++ toHex p
@@ -72,6 +74,27 @@ def chunks (n : Nat) (l : List String) : Nat → List (List String)
   | 0 => []
   | fuel + 1 => if l.isEmpty then [] else l.take n :: chunks n (l.drop n) fuel
 
+def sysAnswer (binRuns : Bool) : List String → String
+  | [host, port, user, pw, tmo, strict, key, pass, cfg, kh, nc, extra, ovr, keyLoads] =>
+    match fromHex host, port.toInt?, fromHex user, fromHex pw, tmo.toInt?, fromHex key, fromHex pass,
+          fromHex cfg, fromHex kh, hexList extra, hexList ovr with
+    | some host, some port, some user, some pw, some tmo, some key, some pass, some cfg, some kh,
+      some extra, some ovr =>
+      let a : Args := { host := host, port := port, user := user, password := pw, timeoutNs := tmo }
+      let s : SSHArgs := { strictKey := s2b strict, privateKeyPath := key, privateKeyPassPhrase := pass,
+                           configFile := cfg, knownHostsFile := kh, netconf := s2b nc }
+      let t : System := { ssh := s, extra := extra, override := ovr }
+      -- `user@host` and `ssh://…` destination syntaxes are not modelled by sshParse: outside the domain
+      let dom := hostOk host && ovr.isEmpty && !host.contains 64 && !hasPrefix host [115,115,104,58,47,47]
+      match systemOpenSpawn a t (s2b keyLoads) binRuns with
+      | .error e => s!"dom={b2s dom} err {showErr e}"
+      | .ok (bin, argv) =>
+        let pwdom := pw.any fun m => markerB m a t
+        let pwfree := argv.all fun e => !isInfix pw e
+        s!"dom={b2s dom} pwdom={b2s pwdom} pwfree={b2s pwfree} ok {toHex bin} {showHexList argv} | {showEff (sshParse argv)}"
+    | _, _, _, _, _, _, _, _, _, _, _ => "bad-op"
+  | _ => "bad-op"
+
 end C14
 open C14
 
@@ -90,24 +113,32 @@ def handleC14 : List String → String
     match hexList argv with
     | some l => showEff (sshParse l)
     | none => "bad-op"
-  | ["sys", host, port, user, pw, tmo, strict, key, pass, cfg, kh, nc, extra, ovr, keyLoads] =>
-    match fromHex host, port.toInt?, fromHex user, fromHex pw, tmo.toInt?, fromHex key, fromHex pass,
-          fromHex cfg, fromHex kh, hexList extra, hexList ovr with
-    | some host, some port, some user, some pw, some tmo, some key, some pass, some cfg, some kh,
-      some extra, some ovr =>
-      let a : Args := { host := host, port := port, user := user, password := pw, timeoutNs := tmo }
-      let s : SSHArgs := { strictKey := s2b strict, privateKeyPath := key, privateKeyPassPhrase := pass,
-                           configFile := cfg, knownHostsFile := kh, netconf := s2b nc }
-      let t : System := { ssh := s, extra := extra, override := ovr }
-      -- `user@host` and `ssh://…` destination syntaxes are not modelled by sshParse: outside the domain
-      let dom := hostOk host && ovr.isEmpty && !host.contains 64 && !hasPrefix host [115,115,104,58,47,47]
-      match systemOpen a t (s2b keyLoads) with
-      | .error e => s!"dom={b2s dom} err {showErr e}"
-      | .ok (bin, argv) =>
-        let pwdom := pw.any fun m => markerB m a t
-        let pwfree := argv.all fun e => !isInfix pw e
-        s!"dom={b2s dom} pwdom={b2s pwdom} pwfree={b2s pwfree} ok {toHex bin} {showHexList argv} | {showEff (sshParse argv)}"
-    | _, _, _, _, _, _, _, _, _, _, _ => "bad-op"
+  | "sys" :: f => sysAnswer true f
+  -- sysbin binRuns <the 14 sys fields>: Open including the spawn of OpenBin
+  | "sysbin" :: br :: f => sysAnswer (s2b br) f
+  -- resolve mode(none|path|system) path found homeHas etcHas home etc
+  | ["resolve", mode, p, found, homeHas, etcHas, home, etc] =>
+    match fromHex p, fromHex home, fromHex etc with
+    | some p, some home, some etc =>
+      let o : Option FileOpt :=
+        if mode == "none" then some .none else if mode == "path" then some (.path p (s2b found))
+        else if mode == "system" then some (.system (s2b homeHas) (s2b etcHas)) else none
+      match o with
+      | some o => match resolveFileOpt home etc o with
+        | .ok r => "ok " ++ toHex r
+        | .error e => "err " ++ showErr e
+      | none => "bad-op"
+    | _, _, _ => "bad-op"
+  -- inchan sys|std user pw pass
+  | ["inchan", kind, user, pw, pass] =>
+    match fromHex user, fromHex pw, fromHex pass with
+    | some user, some pw, some pass =>
+      let k := if kind == "std" then TransportKind.standard else .system
+      let d := inChannelAuthData k { host := [], port := 0, user := user, password := pw, timeoutNs := 0 }
+        { strictKey := true, privateKeyPassPhrase := pass }
+      let ty := match d.type with | .unsupported => "unsupported" | .ssh => "ssh"
+      s!"{ty} {toHex d.user} {toHex d.password} {toHex d.passphrase}"
+    | _, _, _ => "bad-op"
   | "std" :: f =>
     match parseConn f with
     | some c => showConn c
